@@ -722,3 +722,143 @@ func derefNamedStruct(t types.Type) (*types.Struct, bool) {
 	st, ok := t.Underlying().(*types.Struct)
 	return st, ok
 }
+
+// ---------- R5.7: the blocking clause of a model watches its two deepest decisions ----------
+
+// After a model, the clause `not all decisions again` is stored, the search backjumps one level and goes on with the
+// negation of the deepest decision. A clause watches its first two literals. If those are the shallowest decisions,
+// both watches are false from the start and stay so while only deeper levels are retracted: the clause is never
+// woken again, the same decisions can be taken again, and a model is delivered twice. So the literal the search
+// continues with must be at a watched position, and the list must be ordered deepest first.
+func ruleR5_7(w *World, r *Report) {
+	r.Rule("R5.7", "where the negated decisions of a found model are stored as a clause and the search continues with one of them, that literal is taken from a watched position of the clause (index 0 or 1), and the function that lists the negated decisions puts deeper levels at smaller indexes", 2)
+	npc := w.Func("solver", "NewClause")
+	if npc == nil {
+		r.Unk("R5.7", "solver.NewClause", "-", "constructor not found")
+		return
+	}
+	producers := map[*ssa.Function]bool{}
+	n := 0
+	for _, fn := range w.Fns {
+		if w.PkgName(fn) != "solver" {
+			continue
+		}
+		for _, ci := range callsIn(fn) {
+			mk, ok := ci.(*ssa.Call)
+			if !ok || !w.staticCalleeIs(mk, npc) || len(mk.Call.Args) != 1 {
+				continue
+			}
+			lits := mk.Call.Args[0]
+			// the clause becomes the reason of a literal taken from the same list
+			for _, ref := range *mk.Referrers() {
+				st, isS := ref.(*ssa.Store)
+				if !isS || st.Val != ssa.Value(mk) {
+					continue
+				}
+				ia, isIA := st.Addr.(*ssa.IndexAddr)
+				if !isIA {
+					continue
+				}
+				if _, isR := isFieldLoad(ia.X, "solver.Solver", "reason"); !isR {
+					continue
+				}
+				n++
+				key := fmt.Sprintf("%s continues with a watched literal of the blocking clause #%d", w.FuncName(fn), n)
+				// the variable index: Var(L) with L = lits[idx]
+				idx := ia.Index
+				if c, isC := idx.(*ssa.Convert); isC {
+					idx = c.X
+				}
+				var L ssa.Value
+				if vc, isC := idx.(*ssa.Call); isC && len(vc.Call.Args) == 1 {
+					L = vc.Call.Args[0]
+				}
+				if ph, isP := L.(*ssa.Phi); isP {
+					// the literal variable of the loop: take the edge defined in this iteration
+					for _, e := range ph.Edges {
+						if sl, _, okE := elemOfSlice(e); okE && sl == lits {
+							L = e
+						}
+					}
+				}
+				sl, pos, okE := elemOfSlice(L)
+				if !okE || sl != lits {
+					r.Unk("R5.7", key, w.InstrPos(st), "the literal that gets the clause as reason is not an element of the clause's literal list")
+					continue
+				}
+				k, isK := constInt(pos)
+				r.Check(isK && (k == 0 || k == 1), "R5.7", key, w.InstrPos(st), fmt.Sprintf("element %d of the list", k),
+					"the search continues with an element of the list that is not at a watched position (e.g. the last one): the clause watches its two first literals, which are false from the start; after a backjump that keeps them the clause is never examined again and the blocked model can be found a second time")
+				if c, isC := lits.(*ssa.Call); isC {
+					for _, callee := range w.Callees[c] {
+						producers[callee] = true
+					}
+				}
+				if pr, isP := lits.(*ssa.Parameter); isP {
+					// the step lives in a helper: the list is what the callers pass
+					if pi := paramIndex(fn, pr); pi >= 0 {
+						for _, site := range w.Callers[fn] {
+							if args := site.Common().Args; pi < len(args) {
+								if c, isC := args[pi].(*ssa.Call); isC {
+									for _, callee := range w.Callees[c] {
+										producers[callee] = true
+									}
+								}
+							}
+						}
+					}
+				}
+			}
+		}
+	}
+	if n == 0 {
+		r.Unk("R5.7", "blocking clauses", "-", "no clause built from a list becomes the reason of an element of that list")
+		return
+	}
+	var ps []*ssa.Function
+	for p := range producers {
+		ps = append(ps, p)
+	}
+	sort.Slice(ps, func(i, j int) bool { return w.FuncName(ps[i]) < w.FuncName(ps[j]) })
+	for _, g := range ps {
+		key := w.FuncName(g) + " lists deeper decisions first"
+		var bad []string
+		stores := 0
+		allInstrs(g, func(ins ssa.Instruction) {
+			st, ok := ins.(*ssa.Store)
+			if !ok || typeShort(st.Val.Type()) != "solver.Lit" {
+				return
+			}
+			ia, ok := st.Addr.(*ssa.IndexAddr)
+			if !ok {
+				return
+			}
+			if _, isMk := ia.X.(*ssa.MakeSlice); !isMk {
+				return
+			}
+			stores++
+			f := lfOf(ia.Index, 0)
+			neg, pos := 0, 0
+			for atom, c := range f.terms {
+				_ = atom
+				if c < 0 {
+					neg++
+				} else if c > 0 {
+					pos++
+				}
+			}
+			// the level of the variable must enter with a negative sign: index = (number of levels) - level
+			if neg == 0 {
+				bad = append(bad, fmt.Sprintf("%s: index %s grows with the level", w.InstrPos(st), f.String()))
+			}
+		})
+		switch {
+		case stores == 0:
+			r.Unk("R5.7", key, w.Pos(g.Pos()), "no indexed store of a literal into a slice made here")
+		case len(bad) > 0:
+			r.Bad("R5.7", key, w.Pos(g.Pos()), "the negated decisions are listed shallowest first ("+strings.Join(bad, "; ")+"): the clause built from the list watches the two shallowest decisions, which are the last to be retracted, instead of the two deepest")
+		default:
+			r.OK("R5.7", key, w.Pos(g.Pos()), fmt.Sprintf("%d store(s), position = levels - level", stores))
+		}
+	}
+}
